@@ -7,7 +7,7 @@ use std::ops::Bound;
 use bump_scope::traits::{BumpAllocatorTypedScope, MutBumpAllocatorTypedScope};
 use bump_scope::{BumpBox, BumpVec, FixedBumpVec, MutBumpVec, MutBumpVecRev};
 
-use crate::elem::{Elem, tick};
+use bsv_core::elem::{Elem, tick};
 
 #[derive(Clone, Copy, Debug, PartialEq, Eq)]
 pub enum KindId {
